@@ -673,7 +673,7 @@ Definition step (s : st) (o e : line) : st * outline :=
   | 10 :: u :: k :: _ =>                                  (* new union u with max_k *)
       if (k <=? 0) || (max_k <? k) then (s, (refused, []))
       else (setu s u (mkufull (F_uempty (zn k)) [] 0), (ok, []))
-  | 11 :: u :: r :: _ =>                                  (* union u . update(sketch r) *)
+  | 11 :: u :: r :: _ | 16 :: u :: r :: _ =>              (* union u . update(sketch r); 16: update(std::move(copy of r)) *)
       match getu s u, getr s r with
       | Some uf, Some f =>
           let '(u', c', okb) := F_uupdate (u_un uf) (f_sk f) (chs0 e) in
